@@ -13,6 +13,20 @@ ENGINES = [
 ]
 
 CHECKS = [
+    {"id": "C07", "engine": "E3 algebraic value numbering",
+     "technique": "abstract evaluation of StructureFactor on a symbolic structure; normal-form equality with the sum whose terms carry the transformation laws",
+     "text": "StructureFactor is evaluated on symbolic rotation parts, translations, positions, anisotropic tensors and hkl "
+             "(2 and 3 operations, 1 and 2 atoms) and must equal the sum whose terms use R x + t, the phase 2 pi h.r with hkl on "
+             "the left, and the image tensor R beta R^T; Friedel symmetry is checked on the normal form. The group-level "
+             "statement F(hR) = F(h) exp(-2 pi i h.t) is then the re-indexing of that sum over a closed group (C04) - a paper step.",
+     "note": "Trusted: C04, C01 (sintl even in h); numpy exp/cos/sin/dot/transpose."},
+    {"id": "C08", "engine": "E3 algebraic value numbering",
+     "technique": "abstract evaluation of StructureFactor and Uij2betaij; normal-form equality with the explicit sum; call-argument wiring",
+     "text": "On a symbolic three-atom structure (isotropic, anisotropic, no ADP), with the dispersion table absent, present and "
+             "with a None entry, StructureFactor must equal the explicit sum occ*mult/nsymop*(f+f'+if'')*DW*exp(2 pi i h.r) term "
+             "by term; stl, the reciprocal cell and the form factor must be computed from the given cell, hkl and atom type; the "
+             "beta tensor formula and U layout are decided separately. The listed consequences follow on paper.",
+     "note": "Trusted: C16 (FormFactor), C01, C15; numpy."},
     {"id": "C02", "engine": "E3 algebraic value numbering",
      "technique": "normal-form comparison of each conversion with the stated matrix expression (callees opaque); exhaustive sign-pattern evaluation of the QR normalisation",
      "text": "Each of u_to_ubi, ubi_to_cell, ubi_to_u, ubi_to_u_b, ubi_to_rod (both modules) is evaluated with opaque callees and "
